@@ -81,6 +81,33 @@ theorem failed_creation_old_leaves_trace :
   revert this
   decide
 
+/-- The `new_uuid` bracket closes cleanly: after a successful block no reservation is left behind,
+whether the file type indexes ids (the element was indexed: the fragment is returned as is) or not
+(`.afm`, viewpoint activation: the reservation is dropped); a block that never used the id raises. -/
+theorem new_uuid_exit_leaves_no_reservation (f f' : Frag) (ix : Bool) (k : String)
+    (h : newUuidExit f ix k = .ok f') : dget f'.idc k ≠ some none := by
+  unfold newUuidExit at h
+  split at h
+  · split at h
+    · cases h
+    · simp only [Except.ok.injEq] at h
+      subst h
+      simp [idcacheRemoveKey, dget_ddel]
+  · rename_i hne
+    simp only [Except.ok.injEq] at h
+    subst h
+    exact fun hk => hne hk
+
+theorem new_uuid_unused_raises (f : Frag) (k : String) (h : dget f.idc k = some none) :
+    newUuidExit f true k = .error .runtime := by
+  simp [newUuidExit, h]
+
+/-- Before the repair the exit check raised KeyError for every id that was still only reserved —
+also for the legitimate case of a file type that does not index ids — and cleaned nothing up. -/
+theorem new_uuid_exit_old_raises_keyerror (f : Frag) (k : String) (h : dget f.idc k = some none) :
+    newUuidExitOld f k = .error .keyError := by
+  simp [newUuidExitOld, fragGet, h]
+
 -- Non-vacuity
 example :
     let f : Frag := { name := "m", semantic := true, ignDups := false,
